@@ -129,6 +129,25 @@ func c16Explorer(cs c16Case, bound int) *sched.Explorer {
 			w.hist = append(w.hist, porcupine.Operation{ClientId: ci, Input: c16Op{Args: cs.Ops[ci][idx]}, Call: start, Output: out, Return: vrt.Step()})
 		}
 		w.mc.BeforeSend = func(ci, idx int) { calls[ci][idx] = vrt.Step() }
+		// final read-out of every key by a fresh connection, after all clients
+		// finished: part of the history (it exposes partially applied commands
+		// whose replies alone look consistent)
+		w.mc.AfterAll = func() {
+			cl, o := sched.Dial(":6379")
+			if o.Status != "ok" {
+				return
+			}
+			for _, key := range []string{"k", "j"} {
+				st := vrt.Step()
+				r := cl.Do("GET", key)
+				out := "<" + r.Status + ">"
+				if r.Status == "ok" {
+					out = r.Reply.String()
+				}
+				w.hist = append(w.hist, porcupine.Operation{ClientId: len(cs.Ops), Input: c16Op{Args: []string{"GET", key}}, Call: st, Output: out, Return: vrt.Step()})
+			}
+			cl.Close()
+		}
 		return &sched.Run{
 			Body: inner,
 			Verdict: func(r *vrt.Result) sched.Verdict {
@@ -140,7 +159,7 @@ func c16Explorer(cs c16Case, bound int) *sched.Explorer {
 				for _, o := range cs.Ops {
 					total += len(o)
 				}
-				if len(w.hist) != total {
+				if len(w.hist) != total+2 {
 					return sched.Verdict{Clause: "client-starved", Detail: fmt.Sprintf("%d of %d operations completed: %s", len(w.hist), total, obs), Obs: obs}
 				}
 				m := c16Model
@@ -185,9 +204,9 @@ func c16Run(c *fw.Ctx) {
 		names = append(names, k)
 	}
 	sort.Strings(names)
-	bound := 3
+	bound := 2
 	if c.Thorough() {
-		bound = 5
+		bound = 4
 	}
 	variant := func(args []string, ci int) []string {
 		// give each client a distinguishable written value where the command writes one
@@ -285,7 +304,7 @@ func init() {
 	fw.Register(&fw.Prop{
 		ID:          "C16",
 		Level:       "model_checking",
-		Rule:        "for every unordered pair of operation kinds from {GET, SET, SETNX, GETSET, INCR, DECRBY, APPEND, MSETNX, DEL} (thorough: also triples, and pairs followed by reads): 2 (3) clients issue them concurrently on one shared key (MSETNX over two keys, one shared), initial state absent or '1', through the real accept loop and connection goroutines, against (a) a reference store whose primitives are atomic steps each preceded by a scheduling point and (b) the instrumented example store (sync.Map operations are scheduling points); every schedule within deviation bound 3 (thorough 5); each complete execution yields a client-side history (invocation/response stamped with the scheduler's step counter) that porcupine checks for linearizability against the Redis model. A scenario is non-trivial when its schedules produce more than one distinct reply vector.",
+		Rule:        "for every unordered pair of operation kinds from {GET, SET, SETNX, GETSET, INCR, DECRBY, APPEND, MSETNX, DEL} (thorough: also triples, and pairs followed by reads): 2 (3) clients issue them concurrently on one shared key (MSETNX over two keys, one shared), initial state absent or '1', through the real accept loop and connection goroutines, against (a) a reference store whose primitives are atomic steps each preceded by a scheduling point and (b) the instrumented example store (sync.Map operations are scheduling points); every schedule within deviation bound 2 (thorough 4); each complete execution yields a client-side history (invocation/response stamped with the scheduler's step counter) to which a final read-out of every key by a fresh connection is appended; porcupine checks the whole history for linearizability against the Redis model. A scenario is non-trivial when its schedules produce more than one distinct reply vector.",
 		Assumptions: []string{"sequentially consistent interleavings", "histories of more than 3 clients or 2 operations per client are not explored"},
 		Run:         c16Run,
 		Replay:      c16Replay,
